@@ -7,7 +7,7 @@ From CSL Require Import Num.Value Cddl.NoZeroAssets Builder.Totals Builder.Chang
 From CSL Require Import Base.Prelude Cbor.Head Cbor.Item Cbor.ItemProofs Codec.Schema Codec.SchemaProofs
   Ledger.Schemas Ledger.SchemasProofs
   Cddl.Rules Cddl.Validator Cddl.ValidatorProofs Cddl.ConwayCddl Cddl.ToItem Cddl.ToItemProofs Cddl.CanonProofs
-  Cddl.Tables Cddl.Pairing Cddl.Conforms Cddl.ConformsProofs Cddl.KnownClass.
+  Cddl.Tables Cddl.Pairing Cddl.Conforms Cddl.ConformsProofs Cddl.KnownClass Cddl.Refines Cddl.RefinesProofs.
 Local Open Scope N_scope.
 
 (* the independent reader parses the emitted bytes (one item, nothing left over) into exactly the tree [to_item s v] *)
@@ -123,8 +123,52 @@ Proof.
 Qed.
 Print Assumptions C03_praos_header_flat_refuted.
 
-(* the value-INDEPENDENT form of the statement, kept visible: a boolean structural comparison [refines] between schema
-   and rule alone, true on all pairs.  NOT proved, and not provable for these schemas: they are wider than the Conway
+(* (4') the value-INDEPENDENT comparison and its soundness.  [refines e fuel s r] (Cddl/Refines.v) looks at schema and rule
+   only; when it answers true, EVERY schema-valid value of s is emitted as bytes the validator accepts for r.  One generic
+   proof (refines => conforms for all values, induction on fuel; then C03_conforms). *)
+Theorem C03_refines_sound : forall e f s r, refines e f s r = true -> wfs s = true ->
+  forall v, wfv s v = true -> exists fuel, cddl_ok_bytes_fuel e fuel r (enc s v) = true.
+Proof.
+  intros e f s r Hr Hs v Hv. destruct (refines_sound e f s r Hr Hs v Hv) as [g G]. exists g.
+  apply conforms_bytes_sound; assumption.
+Qed.
+Print Assumptions C03_refines_sound.
+
+(* where it answers true and where the schema is WIDER than the rule: the verdict on the 64 pairs of Pairing.conway_pairs
+   (unrolling depth 2), a finite computation.  true (26): Credential, Credentials, Ed25519KeyHashes, DRep, Anchor, Relay,
+   Relays, PoolMetadata, ProtocolVersion, ExUnits, Voter, VotingProcedure, Constitution, NativeScript, NativeScripts,
+   PlutusScripts, TransactionMetadatum, GeneralTransactionMetadata, AuxiliaryData, ScriptRef, Vkeywitness, Vkeywitnesses,
+   Int, VRFCert, OperationalCert (and their uses).  false: every type that contains one of the wider SITES -
+     u32 / u64 where the rule has `uint .size 2` / `.size 4` (tx-input and gov-action index, five protocol parameters,
+       redeemer index, transaction_index), Int where the rule has int64 (cost models, mint, native-script n is fine);
+     a LOWER bound the schema language cannot express: positive_coin (asset quantities, donation), non-zero mint, `{+ }` / `[+ ]`
+       / nonempty_set on a collection whose non-emptiness comes from the enclosing optional field, denominator > 0 and
+       numerator <= denominator of unit intervals;
+     address and reward-account BYTES (header nibble / length consistency is in writer_form, not in wfv);
+     Vec-backed maps that may repeat a key (Mint, Redeemers map form, PlutusMap);
+     Plutus lists (an indefinite EMPTY list is schema-valid) and the Plutus-data datum set (no NoDup in the schema);
+     pre-Conway items (body key 6, certificates 5 / 6, parameter keys 12-14) and the flat header bodies.
+   For all of those C03_conforms reads the condition off the value instead. *)
+Theorem C03_refines_pairs :
+  map (fun p => refines conway_env 80 (fst p) (snd p)) (conway_pairs 2) =
+  [false; false; true; true; true; true; true; false; true; true; true; true; true; false; false; false; false; false; false;
+   false; false; true; false; true; false; false; false; false; false; true; false; false; false; true; true; true; false;
+   false; false; true; true; true; true; false; false; false; false; false; false; true; true; false; false; false; false;
+   true; true; true; false; false; false; false; false; false].
+Proof. vm_compute. reflexivity. Qed.
+Print Assumptions C03_refines_pairs.
+
+(* single sites, pinned: the same shape with the rule's bound refines, the implementation's wider one does not *)
+Example C03_wider_sites :
+  refines conway_env 20 (arr [H32; U16]) transaction_input = true /\ refines conway_env 20 TransactionInput transaction_input = false /\
+  refines conway_env 20 (SUint 18446744073709551616) positive_coin = false /\ refines conway_env 20 (SUint 18446744073709551616) coin = true /\
+  refines conway_env 20 (SBytes 29 57) RAddress = false /\ refines conway_env 20 UnitInterval unit_interval = false /\
+  refines conway_env 40 (SArrOf 0 IntS) cost_model = false /\ refines conway_env 40 (SArrOf 0 IntS) (RArrOf 0 r_int) = true.
+Proof. vm_compute. repeat split. Qed.
+
+(* the value-INDEPENDENT form of the statement in its strongest reading, kept visible: a sound [refines] that is true on ALL
+   pairs.  The soundness half is C03_refines_sound; the "true on all pairs" half is false (C03_refines_pairs: 26 of 64),
+   and not repairable for these schemas: they are wider than the Conway
    rules exactly where the API admits CDDL-invalid values (u32 indices, Int vs int64), and lower bounds (positive_coin,
    denominator > 0, [+ a] on a collection whose non-emptiness comes from the enclosing optional field) are not
    expressible in the schema language, so [refines] is false on every transaction-level pair.  C03_conforms is the
